@@ -288,6 +288,9 @@ func (s *sys) apply(op string) {
 		}
 	case "advance":
 		s.progress = gpbft.InstanceProgress{Instant: gpbft.Instant{ID: 6, Round: 0, Phase: gpbft.QUALITY_PHASE}, Input: vfix.Chain(base2, "n", 1, tcid)}
+	case "between":
+		// between two instances: the next instance is scheduled but has not begun, so it has no input chain yet
+		s.progress = gpbft.InstanceProgress{Instant: gpbft.Instant{ID: 6, Round: 0, Phase: gpbft.INITIAL_PHASE}}
 	case "tick":
 		s.clk.Add(maxAge / 2)
 	}
@@ -295,7 +298,7 @@ func (s *sys) apply(op string) {
 
 func (s *sys) key() string {
 	h := sha256.New()
-	fmt.Fprint(h, s.cx.VerifDump(), "|", s.progress.ID, "|")
+	fmt.Fprint(h, s.cx.VerifDump(), "|", s.progress.ID, s.progress.Input == nil, "|")
 	var ks []string
 	for ik := range s.admitted {
 		ks = append(ks, fmt.Sprintf("a%d.%x", ik.inst, ik.key[:4]))
@@ -328,7 +331,7 @@ func alphabet(thorough bool) []string {
 		ops = append(ops, "rem:5:C3:"+fl)
 	}
 	ops = append(ops, "rem:4:C3:valid", "rem:8:C3:valid", "rem:5:W:valid")
-	ops = append(ops, "prune:6", "prune:7", "advance")
+	ops = append(ops, "prune:6", "prune:7", "advance", "between", "rem:9:C3:valid")
 	if thorough {
 		ops = append(ops, "prune:5", "tick")
 	}
@@ -458,7 +461,7 @@ func main() {
 		chk.Distinct(k)
 	}
 	chk.Sample("look:5:C3:0 rem:5:C3:valid flood:5 look:5:C3:0")
-	chk.Set("rule", "BFS over histories of {lookup(instance 5|6, key of C1 / prefix of C1 / C2 / C3 / never-broadcast W), own broadcast, remote broadcast valid or rejected for each reason (undecodable, empty, malformed, past / too distant instance, timestamp too old / in the future, base contradicting the current input), admission followed by lookups of every prefix, flood of capacity+1 unsolicited chains, prune(5|6|7), progress change, clock tick} on the real PubSubChainExchange (wanted capacity 8, discovered capacity 6), deduplicated on (both LRU caches in order, reference bookkeeping); plus the started service end to end: {own, remote} broadcast in both orders x {start context cancelled after Start, kept}, every prefix must become retrievable")
+	chk.Set("rule", "BFS over histories of {lookup(instance 5|6, key of C1 / prefix of C1 / C2 / C3 / never-broadcast W), own broadcast, remote broadcast valid or rejected for each reason (undecodable, empty, malformed, past / too distant instance, timestamp too old / in the future, base contradicting the current input), admission followed by lookups of every prefix, flood of capacity+1 unsolicited chains, prune(5|6|7), progress change to the next instance (begun, or scheduled without an input chain yet), clock tick} on the real PubSubChainExchange (wanted capacity 8, discovered capacity 6), deduplicated on (both LRU caches in order, reference bookkeeping); plus the started service end to end: {own, remote} broadcast in both orders x {start context cancelled after Start, kept}, every prefix must become retrievable")
 	chk.Assume("BFS part: validator and caching routines are driven synchronously through an injected accessor (no network, no concurrent lookups); mock clock. Life-cycle part: two started services over mocknet gossipsub, real clock; 'never retrievable' = not within two minutes of polling and re-broadcasting")
 	chk.Finish()
 }
